@@ -8,6 +8,8 @@ import (
 	"net"
 	"os"
 	"os/exec"
+	"runtime"
+	"runtime/debug"
 	"sort"
 	"strconv"
 	"strings"
@@ -94,6 +96,19 @@ func c18Wait(cond func() bool) bool {
 		c18Timeouts.Add(1)
 	}
 	return ok
+}
+
+// c18NoGC runs f with the garbage collector switched off. A socket that the code under test forgot to close
+// is closed by the finalizer of its net.Listener / net.Conn as soon as a collection happens to run, which
+// would hide the leak from the probes (re-bind, /proc/net/tcp, /proc/self/fd) at random. The collector runs
+// once after the case.
+func c18NoGC(f func() string) string {
+	old := debug.SetGCPercent(-1)
+	defer func() {
+		debug.SetGCPercent(old)
+		runtime.GC()
+	}()
+	return f()
 }
 
 func c18Retry(f func() string) string {
